@@ -164,7 +164,7 @@ class Check:
             "reader": ("SrcReader_inst.v", ["RTCMReader.read", "RTCMReader._parse_ubx", "RTCMReader._parse_nmea", "RTCMReader._parse_rtcm3",
                                             "RTCMReader._read_bytes", "RTCMReader._read_line", "RTCMReader._do_error", "RTCMReader.parse"])}
 
-    def source_tie_obj(self, which):
+    def source_tie_obj(self, which, with_tables=False):
         """the same kind of tie for the two stream classes (DESIGN.md 3.4): tools/gen_src2.py translates the CURRENT text of the
         class's methods into PyO syntax (coq/Src/PyO.v: objects, exceptions, while loops, calls into an abstract environment) and
         run/Src{Sock,Reader}_inst.v re-proves, against that text, that interpreting it equals Model/Socket.v resp. Model/Reader.v for
@@ -172,16 +172,11 @@ class Check:
         inst, funcs = self.SRCO[which]
         tie = {"functions": funcs, "status": "not-established", "detail": ""}
         self.extra_cov["source_tie_" + which] = tie
-        sub = os.path.join(self.work, "srco_" + which)
-        os.makedirs(sub, exist_ok=True)
-        out = os.path.join(sub, "SrcO.v")
+        sub = self.work
+        out = os.path.join(sub, {"sock": "SrcOSock.v", "reader": "SrcOReader.v"}[which])
         env = vlib.impl_env()
         env["VERIF_REPO"] = vlib.REPO
         src = os.path.join(vlib.VERIF, "run", inst)
-        if not os.path.exists(src):
-            tie["detail"] = "no equivalence proof script yet (run/%s)" % inst
-            self.notes.append("source tie (%s): %s" % (which, tie["detail"]))
-            return False
         try:
             p = subprocess.run([vlib.PY, os.path.join(vlib.VERIF, "tools", "gen_src2.py"), out, which], env=env, capture_output=True, text=True, timeout=120)
         except subprocess.TimeoutExpired:
@@ -191,7 +186,7 @@ class Check:
         else:
             ok, log, secs = vlib.coqc(out, sub, 300)
             if not ok:
-                tie["detail"] = "SrcO.v does not compile: " + log[-400:]
+                tie["detail"] = "%s does not compile: %s" % (os.path.basename(out), log[-400:])
             else:
                 dst = os.path.join(sub, inst)
                 shutil.copy(src, dst)
@@ -206,6 +201,17 @@ class Check:
                     else:
                         tie["status"] = "proved"
                         tie["detail"] = "interpretation of the translated source = model, for all states, arguments and environments (%.1fs)" % (secs + secs2)
+                        if which == "reader" and with_tables:
+                            src2 = os.path.join(vlib.VERIF, "run", "SrcReader_tables_inst.v")
+                            dst2 = os.path.join(sub, "SrcReader_tables_inst.v")
+                            shutil.copy(src2, dst2)
+                            ok3, log3, _ = vlib.coqc(dst2, sub, 300)
+                            t3 = self._parse_assumptions(log3) if ok3 else {}
+                            if ok3 and t3 and not [a for v in t3.values() for a in v if not self._axiom_allowed(a)]:
+                                thms.update(t3)
+                                tie["detail"] += "; constants of the source text = the working tree's tables, real constructor discharges the no-EOFError hypothesis"
+                            else:
+                                tie["detail"] += "; NOT coupled to the working tree's tables: " + log3[-300:]
                         for name, ax in thms.items():
                             self.axioms[name] = ax
                             self.oblige("source theorem %s: PyO interpretation of the current source text = model (Print Assumptions: %s)"
